@@ -23,7 +23,12 @@ func c11Loss(pending int) {
 	_, events, err := c.Subscribe(1, 1, 5)
 	sym.Assert(err == nil, "subscribe-ok")
 
-	kind := sym.Choose("fault", 4)
+	kind := sym.Choose("fault", 6)
+	if kind >= 4 {
+		// a stalled peer: the k-th and later writes block until the connection is closed; the
+		// connection then fails (4: the read side dies, 5: local Close) while a sender is stuck
+		s.blockWrites = 1 + sym.Choose("first-blocked-write", pending)
+	}
 	if kind == 3 {
 		// the k-th write on the stream fails (k over the writes of this scenario)
 		s.failAt = 1 + sym.Choose("failing-write", pending)
@@ -57,6 +62,10 @@ func c11Loss(pending int) {
 		e.Close()
 	case 2:
 		s.Close() // the transport dies under the endpoint
+	case 4:
+		s.peerClose()
+	case 5:
+		e.Close()
 	case 3:
 		// a write failed: the failing call returned by itself; the connection is then closed by the user
 		sym.Quiesce()
